@@ -207,10 +207,12 @@ Definition claim (s : state) (hash : Z) (known : bool) : state * list out :=
       else
         let '(valid, expected, amt) := claim_scan parts None 0 in
         match parts, expected with
-        | [], _ | _, None => (s', [])          (* nothing is claimed; the parts are dropped *)
+        | [], _ | _, None => (s', [])          (* an incomplete set: nothing is claimed *)
         | _, Some exp =>
-            if negb (amt =? exp) then (s', []) (* a part was failed since PaymentClaimable: dropped *)
-            else if valid then
+            (* a part was failed back since PaymentClaimable ([amt <> exp]), or the parts disagree on
+               the received total: the payment can no longer be claimed, every remaining part is
+               failed back *)
+            if valid && (amt =? exp) then
               (s', OClaimed hash amt (map pt_id parts) :: map (fun p => OFulfill (pt_id p)) parts)
             else (s', map (fun p => OFailPart (pt_id p) F_IncorrectPaymentDetails) parts)
         end
